@@ -47,7 +47,72 @@ func (f c01Field) extract(hdr [4]byte) int {
 	return v
 }
 
+// c01Structured: bodies that MEAN something to other parts of the library (a header accessor must not look at
+// them): a PES packet start right behind the header with the PES flag byte from a set that includes non-zero
+// PES_scrambling_control / priority / alignment bits; the same behind adaptation fields of length 0, 1 and 7
+// (with a PCR); PAT, PMT and splice_info sections behind a pointer_field; full-length adaptation fields.
+const c01NStructured = 16
+
+func c01Structured(k int) packet.Packet {
+	var p packet.Packet
+	for i := range p {
+		p[i] = 0xFF
+	}
+	pesAt := func(off int, b6, b7 byte) {
+		copy(p[off:], []byte{0x00, 0x00, 0x01, 0xE0, 0x00, 0x00, b6, b7, 0x0A, 0x31, 0x00, 0x01, 0x00, 0x01, 0x11, 0x00, 0x01, 0x00, 0x01})
+	}
+	switch k {
+	case 0:
+		pesAt(4, 0x84, 0x80)
+	case 1:
+		pesAt(4, 0x94, 0x80)
+	case 2:
+		pesAt(4, 0xA4, 0xC0)
+	case 3:
+		pesAt(4, 0xB4, 0x80)
+	case 4:
+		pesAt(4, 0xBF, 0xFF)
+	case 5:
+		p[4] = 0
+		pesAt(5, 0x94, 0x80)
+	case 6:
+		p[4] = 0
+		pesAt(5, 0xB0, 0xC0)
+	case 7:
+		p[4], p[5] = 1, 0x00
+		pesAt(6, 0x94, 0x80)
+	case 8:
+		p[4], p[5] = 1, 0x40
+		pesAt(6, 0xB0, 0x80)
+	case 9:
+		copy(p[4:], []byte{7, 0x10, 0x12, 0x34, 0x56, 0x78, 0x7E, 0x11})
+		pesAt(12, 0x94, 0x80)
+	case 10:
+		copy(p[4:], []byte{7, 0x10, 0x12, 0x34, 0x56, 0x78, 0x7E, 0x11})
+		pesAt(12, 0xB0, 0xC0)
+	case 11:
+		copy(p[4:], ref.WithCRC([]byte{0x00, 0xB0, 0x0D, 0x00, 0x01, 0xC1, 0x00, 0x00, 0x00, 0x01, 0xE0, 0x64}))
+		copy(p[4:], []byte{0x00})
+		copy(p[5:], ref.WithCRC([]byte{0x00, 0xB0, 0x0D, 0x00, 0x01, 0xC1, 0x00, 0x00, 0x00, 0x01, 0xE0, 0x64}))
+	case 12:
+		p[4] = 0
+		copy(p[5:], ref.WithCRC([]byte{0x02, 0xB0, 0x12, 0x00, 0x01, 0xC1, 0x00, 0x00, 0xE0, 0x65, 0xF0, 0x00, 0x1B, 0xE0, 0x65, 0xF0, 0x00}))
+	case 13:
+		p[4] = 0
+		copy(p[5:], ref.WithCRC([]byte{0xFC, 0x30, 0x11, 0x00, 0x00, 0x00, 0x00, 0x00, 0x00, 0x00, 0xFF, 0xF0, 0x00, 0x00, 0x00, 0x00}))
+	case 14:
+		p[4], p[5] = 183, 0xFF
+	default:
+		copy(p[4:], []byte{10, 0x02, 0x08, 1, 2, 3, 4, 5, 6, 7, 8})
+		pesAt(15, 0x94, 0x80)
+	}
+	return p
+}
+
 func c01Fill(idx int, seed int64) packet.Packet {
+	if idx >= c01NFills {
+		return c01Structured(idx - c01NFills)
+	}
 	var p packet.Packet
 	switch idx {
 	case 0:
@@ -476,6 +541,20 @@ func init() {
 					for _, s := range []int{0x00, 0x46, 0x48, 0xFF} {
 						for b1 := 0; b1 < 256; b1 += 5 {
 							emit(c01HdrCase{B1: b1, Fill: (b1 + s) % c01NFills, Sync: s, Seed: r.Seed})
+						}
+					}
+				},
+				Check: c01CheckHeader, Batch: 1,
+			},
+			&engine.Enum[c01HdrCase]{
+				Name: "structured-bodies",
+				Rule: "the header-2^24 checks (every getter in both styles, every setter with every in-range value, copy helpers, validation) for all 65536 values of bytes 2..3 x all 256 values of byte 1 (quick: every 4th, plus all with the unit-start or a flag bit pattern 0x40..0x5F) over 16 bodies that other parts of the library interpret: a PES packet start directly behind the header and behind adaptation fields of length 0, 1, 7 (PCR) and 10 (private data), with PES flag bytes carrying non-zero PES_scrambling_control / priority / alignment / copyright bits; PAT, PMT and splice_info sections behind a pointer_field; a full 183-byte adaptation field with all flags. A header setter must leave all 184 body bytes alone whatever they mean.",
+				Gen: func(r *engine.Run, emit func(c01HdrCase)) {
+					for k := 0; k < c01NStructured; k++ {
+						for b1 := 0; b1 < 256; b1++ {
+							if r.Thorough() || b1%4 == 0 || (b1 >= 0x40 && b1 < 0x60) {
+								emit(c01HdrCase{B1: b1, Fill: c01NFills + k, Sync: 0x47, Seed: r.Seed})
+							}
 						}
 					}
 				},
